@@ -1,4 +1,29 @@
-(* placeholder until the C09 theorems land *)
-From Jamm Require Import Conc.
-Lemma c09_placeholder : True. Proof. exact I. Qed.
-Print Assumptions c09_placeholder.
+(* C09 -- writers are serialized, no update is lost, and nobody deadlocks.
+   Model: model/Conc.v (any number of threads, any schedule). Liveness is stated as deadlock freedom:
+   whenever some thread is unfinished, some thread can take a step (no fairness assumption needed for that;
+   "every thread eventually finishes" then follows under any fair scheduler because every blocking condition
+   is discharged by threads that are not waiting on the blocked one -- not formalised as a temporal property). *)
+From Coq Require Import List.
+From Jamm Require Import Conc ConcFacts.
+Import ListNotations.
+
+Theorem C09_writers_serialized : forall ab c0 ts s, initial_threads ts -> reachable ab (init c0 ts) s -> mutex_ok s.
+Proof. exact C09_mutex. Qed.
+Print Assumptions C09_writers_serialized.
+
+(* a writer's view of the header stays current from the moment it reads it until it writes its own: no lost update *)
+Theorem C09_no_lost_update : forall ab c0 ts s i t, initial_threads ts -> reachable ab (init c0 ts) s ->
+  nth_error (threads s) i = Some t ->
+  In (t_pc t) [WHdr; WReg; CGrow1; CGrow2; CGrow3; CData; CHeaderNext] -> t_hdr t = cur s.
+Proof. exact C09_fresh_writer. Qed.
+Print Assumptions C09_no_lost_update.
+
+Theorem C09_commits_increment : forall ab c0 ts s i s', initial_threads ts -> reachable ab (init c0 ts) s ->
+  step ab s i = Some s' -> cur s' = cur s \/ cur s' = S (cur s).
+Proof. exact C09_commit_increments. Qed.
+
+(* deadlock freedom; in particular a reader is never blocked by an open, uncommitted writer (only by a remap in progress) *)
+Theorem C09_deadlock_free : forall ab c0 ts s, initial_threads ts -> reachable ab (init c0 ts) s ->
+  all_done s = false -> some_enabled ab s.
+Proof. exact C09_progress. Qed.
+Print Assumptions C09_deadlock_free.
